@@ -13,10 +13,8 @@
 /// The execution path may also differ, which can be used to refine the stub
 /// logic.
 #[test]
-fn kani_concrete_playback_c19_str_duration_total_short_2341550331267429880() {
+fn kani_concrete_playback_c19_str_duration_total_short_8670470735646652797() {
     let concrete_vals: Vec<Vec<u8>> = vec![
-        // 165
-        vec![165],
         // 115
         vec![115],
     ];
